@@ -50,7 +50,11 @@ TRUSTED = ['vf/refmodel.py (orderbook clause)']
 
 def cases(tier, seed):
     lst = THOROUGH if tier == 'thorough' else QUICK
-    return [(cid, dict(kw=dict(kw), level=level)) for cid, kw, level in lst]
+    out = [(cid, dict(kw=dict(kw), level=level)) for cid, kw, level in lst]
+    # full execution is enforced by the solver: the variables declared boolean to it are exactly the execution variables of the orders, also when an
+    # order without any step in the horizon (a variable without mapping row) is listed first (C03's recorder)
+    out.append(('full_exec_booleans_reach_the_solver_outside_order_first', common.delegated('c03', kind='assembled', shape='orderbook', kw=dict(T=3, full_exec=True, orders=((-2, -1, 1.0), (0, 2, 2.0), (1, 3, -1.5))))))
+    return out
 
 
 def run_case(case_id, tier, seed, kw, level):
